@@ -962,12 +962,14 @@ func (b *Builder) PatchConfig() ([]byte, error) {
 				DemonConfig.AddWString("Content-type: */*")
 			}
 		} else {
+			// the listener's own header list is left as it is: the payload gets a copy
+			Headers := Config.Config.Headers
 			if len(Config.Config.HostHeader) > 0 {
-				Config.Config.Headers = append(Config.Config.Headers, "Host: "+Config.Config.HostHeader)
+				Headers = append(append([]string{}, Headers...), "Host: "+Config.Config.HostHeader)
 			}
 
-			DemonConfig.AddInt(len(Config.Config.Headers))
-			for _, headers := range Config.Config.Headers {
+			DemonConfig.AddInt(len(Headers))
+			for _, headers := range Headers {
 				logger.Debug(headers)
 				DemonConfig.AddWString(headers)
 			}
